@@ -102,9 +102,10 @@ def domain():
     return _state['dom']
 
 
-def value_class(rendering):
-    """(neg, ranges) of the rendering's value item, from the live template where there is one."""
-    ex = live()
+def value_class(rendering, reviewed=False):
+    """(neg, ranges) of the rendering's value item: from the live template where there is one (correspondence),
+    or the reviewed class the property is stated over (search: an edited class must not hide itself)."""
+    ex = None if reviewed else live()
     lst, idx = RENDERINGS[rendering]
     if ex and idx < len(ex['lists'][lst]):
         mid = ex['lists'][lst][idx][1]
@@ -322,7 +323,7 @@ def gen_rendering_case(rng, key=None, rendering=None, form=None, nparts=None, al
         if r in COLON and not last and not allow_wildcard_class:
             # a colon rendering followed by a later quote is the listed WILDCARD finding: keep quotes out of the rest
             r = rng.choice(['eq_bare', 'dashdash', 'xml', 'cmd_flag'])
-        cls = value_class(r)
+        cls = value_class(r, reviewed=strict)
         sec = gen_secret(rng, cls, style=rng.choice(SECRET_STYLES))
         if strict and allow_nested_class:
             sec = gen_secret(rng, cls, style='keyish')
@@ -471,24 +472,24 @@ def corr_cases(ctx):
     ex = live()
     forms = FORMS4
     # 1. every key x 4 case forms x every rendering
-    rounds = 1 if ctx.quick else 40
+    rounds = 1 if ctx.quick else 60
     for rnd in range(rounds):
         for key in keys:
             for form in forms:
                 for r in sorted(RENDERINGS):
-                    if ctx.quick and rnd == 0 and rng.random() < 0.35:
+                    if False:
                         continue                      # quick tier: ~65 % of the grid per run, the rest is sampled
                     c = gen_rendering_case(rng, key=key, rendering=r, form=form,
                                            nparts=1 if rng.random() < 0.7 else None, allow_wildcard_class=True)
                     mask = c['mask'] if rng.random() < 0.7 else gen_mask_text(rng, True)
                     yield ('mask', c['message'], mask, 'grid/' + r)
     # 2. multi-secret messages, mixed/folded case forms
-    for _ in range(600 if ctx.quick else 40000):
+    for _ in range(700 if ctx.quick else 40000):
         c = gen_rendering_case(rng, form=rng.choice(FORMS4 + ['mixed', 'folded']), nparts=rng.randrange(2, 5),
                                allow_wildcard_class=True)
         yield ('mask', c['message'], gen_mask_text(rng, rng.random() < 0.3), 'multi')
     # 3. malformed stream
-    for _ in range(1500 if ctx.quick else 45000):
+    for _ in range(1700 if ctx.quick else 45000):
         yield ('mask', gen_malformed(rng), gen_mask_text(rng, rng.random() < 0.3), 'malformed')
     # 4. outside the character domain (sample)
     for _ in range(100 if ctx.quick else 3000):
@@ -578,18 +579,6 @@ def case_json(c):
 
 
 # ------------------------------------------------------------------ failing-input search (implementation only)
-
-def without_wildcard(message, mask):
-    """The code's own loop with the WILDCARD step left out (classification of the listed finding only)."""
-    s = strutils()
-    for key in s._SANITIZE_KEYS:
-        if key in message.lower():
-            for p in s._SANITIZE_PATTERNS_2[key]:
-                message = re.sub(p, r'\g<1>' + mask + r'\g<2>', message)
-            for p in s._SANITIZE_PATTERNS_1[key]:
-                message = re.sub(p, r'\g<1>' + mask, message)
-    return message
-
 
 def oracle(case):
     """None if the property holds on this case, else a description."""
@@ -755,14 +744,41 @@ def minimise(case):
     return case
 
 
+def reference_loop(message, mask, wildcard):
+    """mask_password's loop over the module's own compiled patterns, with or without the WILDCARD step
+    (used only to recognise the listed class KF_C04_WILDCARD)."""
+    st = strutils()
+    for key in st._SANITIZE_KEYS:
+        if key in message.lower():
+            for p in st._SANITIZE_PATTERNS_2[key]:
+                message = re.sub(p, r'\g<1>' + mask + r'\g<2>', message)
+            for p in st._SANITIZE_PATTERNS_1[key]:
+                message = re.sub(p, r'\g<1>' + mask, message)
+            if wildcard:
+                for p in st._SANITIZE_PATTERNS_WILDCARD[key]:
+                    message = re.sub(p, r'\g<1>', message)
+    return message
+
+
 def in_wildcard_class(case):
-    """The listed class: the code without its WILDCARD step gives exactly the expected string."""
-    if case.get('kind') != 'render':
+    """The listed class KF_C04_WILDCARD: a colon-quoted rendering is followed later in the message by a quote
+    character, the code's PATTERNS_2/PATTERNS_1 steps without the WILDCARD step give exactly the expected string,
+    and the actual result is what those steps plus the WILDCARD step give."""
+    if case.get('kind') != 'render' or 'parts' not in case:
+        return False
+    later = case['post']
+    structural = False
+    for p in reversed(case['parts']):
+        if p['rendering'] in COLON and ('"' in later or "'" in later):
+            structural = True
+        later = p['head'] + p['value'] + p['tail'] + p['sep'] + later
+    if not structural:
         return False
     mask = case.get('mask', '***')
     try:
-        return without_wildcard(case['message'], mask) == case['expected'] and \
-            strutils().mask_password(case['message'], mask) != case['expected']
+        got = strutils().mask_password(case['message'], mask)
+        return got != case['expected'] and reference_loop(case['message'], mask, False) == case['expected'] \
+            and got == reference_loop(case['message'], mask, True)
     except Exception:
         return False
 
